@@ -494,6 +494,86 @@ fn run_case(case_seed: u64, r: &mut Report, args: &Args, only_image: Option<&str
     }
 }
 
+/// Records of unusual size: an acknowledged put whose log record is 1 MiB / 16 MiB / 32 MiB long must
+/// come back after a crash like any other, together with everything logged after it, and again
+/// after a second crash that follows more writes.
+fn large_record_case(case_seed: u64, r: &mut Report, args: &Args) {
+    let mut rng = Rng::new(case_seed);
+    let size = *rng.pick(&[1usize << 20, (16usize << 20) + 5, (32usize << 20) + 1]);
+    let scratch = args.scratch_dir("c02big");
+    let dir = scratch.join("live");
+    std::fs::create_dir_all(&dir).unwrap();
+    let cfg = WalConfig::default();
+    let replay = json!({"part": "large-record", "case_seed": case_seed});
+    let small = |id: i64| {
+        let mut d = TensorData::new();
+        d.set("v", tensor_store::TensorValue::Scalar(tensor_store::ScalarValue::Int(id)));
+        d
+    };
+    let store = match TensorStore::open_durable(dir.join(WAL), cfg.clone()) {
+        Ok(s) => s,
+        Err(e) => {
+            r.inconclusive(&format!("open_durable: {}", e));
+            return;
+        }
+    };
+    let mut big = TensorData::new();
+    big.set("blob", tensor_store::TensorValue::Scalar(tensor_store::ScalarValue::Bytes(rng.bytes(size))));
+    let mut acked = true;
+    acked &= store.put_durable("k:a", small(1)).is_ok();
+    let big_ok = store.put_durable("k:big", big).is_ok();
+    acked &= store.put_durable("k:c", small(3)).is_ok();
+    acked &= store.delete_durable("k:a").is_ok();
+    if !acked {
+        r.inconclusive("small durable writes refused");
+        return;
+    }
+    if !big_ok {
+        // refusing an oversized value is an answer, not a loss
+        r.count("large_record_refused", 1);
+    }
+    let live: View = view(&store).into_iter().map(|(k, v)| (k, format!("{:016x}/{}", hash_str(&v), v.len()))).collect();
+    drop(store);
+    let digest = |s: &TensorStore| -> View { view(s).into_iter().map(|(k, v)| (k, format!("{:016x}/{}", hash_str(&v), v.len()))).collect() };
+    match TensorStore::recover(dir.join(WAL), &cfg, Some(&dir.join(SNAP))) {
+        Err(e) => {
+            r.violation("large-record:recover-error", format!("log with a {}-byte value: {}", size, e), replay);
+            return;
+        }
+        Ok(rec) => {
+            let got = digest(&rec);
+            r.count("large_record_recoveries", 1);
+            if got != live {
+                r.violation(
+                    "large-record:acknowledged-writes-missing-after-recovery",
+                    format!("after an acknowledged put of a {}-byte value (+ 2 later acknowledged writes) recovery shows {:?}, the live store showed {:?}", size, got, live),
+                    replay,
+                );
+                return;
+            }
+            // second crash after more writes on the recovered store
+            let ok = rec.put_durable("k:d", small(4)).is_ok();
+            let live2 = digest(&rec);
+            drop(rec);
+            if ok {
+                match TensorStore::recover(dir.join(WAL), &cfg, Some(&dir.join(SNAP))) {
+                    Ok(rec2) => {
+                        if digest(&rec2) != live2 {
+                            r.violation("large-record:acknowledged-writes-missing-after-second-recovery", format!("{}-byte value: second recovery shows {:?}, expected {:?}", size, digest(&rec2), live2), replay);
+                            return;
+                        }
+                    }
+                    Err(e) => {
+                        r.violation("large-record:recover-error", format!("second recovery, {}-byte value: {}", size, e), replay);
+                        return;
+                    }
+                }
+            }
+        }
+    }
+    r.eval(hash_combine(case_seed, size as u64), true);
+}
+
 /// child mode for the strace leg: `child-ack <dir> <seed> <mode>`; writes "ACK <n>" to fd 1 right
 /// after every durable call that returned Ok (immediate mode) or after every successful sync()
 /// (batched / manual), so the tracer can check that the log was fsynced before the ack.
@@ -599,22 +679,29 @@ fn main() {
     if let Some(p) = &args.replay {
         let v: Value = serde_json::from_str(&std::fs::read_to_string(p).expect("replay")).expect("json");
         let rp = &v["replay"];
-        run_case(rp["case_seed"].as_u64().unwrap(), &mut total, &args, rp["image"].as_str());
+        if rp["part"].as_str() == Some("large-record") {
+            large_record_case(rp["case_seed"].as_u64().unwrap(), &mut total, &args);
+        } else {
+            run_case(rp["case_seed"].as_u64().unwrap(), &mut total, &args, rp["image"].as_str());
+        }
     } else {
         let n = args.by_tier(3_000u64, 200_000u64);
         let a2 = args.clone();
         let rep = par_cases(args.threads, args.seed, n, args.budget(55, 1200), move |_i, s, r| run_case(s, r, &a2, None));
         total.merge(rep);
+        let a3 = args.clone();
+        let rep = par_cases(3, args.seed ^ 0xB16, args.by_tier(6u64, 60u64), args.budget(30, 240), move |_i, s, r| large_record_case(s, r, &a3));
+        total.merge(rep);
     }
     let meta = Meta {
         property: "C02",
-        rule: "one case = a seeded history of 6-35 put_durable/delete_durable/sync/checkpoint calls (all value kinds, key classes plain/emb/node/edge/table/blob/cache, sync modes immediate/batched/manual, 10% with a tiny WAL size limit to force rotation) on the real TensorStore; crash images = directory after every call, log cut at sampled or all bytes inside each call's on-disk growth (every record: header bytes, payload middle, last byte, record boundaries of multi-record calls), directory inside checkpoint()/rotate() at the hook points, partial snapshot temp files; each image recovered with TensorStore::recover and compared with the live views S_lo..S_hi; 3-8 images per case are continued (write more, crash again, up to 3 crashes). Distinct = hash of (history, mode); non-trivial = history leaves a non-empty state and produced > 5 crash images.",
+        rule: "one case = a seeded history of 6-35 put_durable/delete_durable/sync/checkpoint calls (all value kinds, key classes plain/emb/node/edge/table/blob/cache, sync modes immediate/batched/manual, 10% with a tiny WAL size limit to force rotation) on the real TensorStore; crash images = directory after every call, log cut at sampled or all bytes inside each call's on-disk growth (every record: header bytes, payload middle, last byte, record boundaries of multi-record calls), directory inside checkpoint()/rotate() at the hook points, partial snapshot temp files; each image recovered with TensorStore::recover and compared with the live views S_lo..S_hi; 3-8 images per case are continued (write more, crash again, up to 3 crashes); plus a few histories containing one acknowledged value of 1 MiB / 16 MiB / 32 MiB. Distinct = hash of (history, mode); non-trivial = history leaves a non-empty state and produced > 5 crash images.",
         assumptions: vec![
             "crash = process crash: the files hold a prefix of the bytes written; page-cache loss (power failure) cannot be observed here - fsync ordering is checked separately by the strace leg".into(),
             "under batched/manual sync a write counts as acknowledged only once a later explicit sync() or checkpoint() returned".into(),
             "_cache: keys are excluded from every comparison (documented non-durable)".into(),
         ],
-        floors: if args.replay.is_some() { vec![] } else { vec![("evaluations", 20), ("crash_images_recovered", 1500), ("torn_record_images", 300), ("mid_checkpoint_or_rotation_images", 20), ("chained_sessions", 10)] },
+        floors: if args.replay.is_some() { vec![] } else { vec![("evaluations", 20), ("crash_images_recovered", 1500), ("torn_record_images", 300), ("mid_checkpoint_or_rotation_images", 20), ("chained_sessions", 10), ("large_record_recoveries", 2)] },
         exhaustive: false,
     };
     write_result(&args, &meta, &total, started);
